@@ -643,7 +643,7 @@ func unmapProfileProperties(mm map[string][]byte, p *Profile) error {
 	if err != nil {
 		return err
 	}
-	if raw, ok := mm["Describes"]; ok {
+	if raw, ok := mm["describes"]; ok {
 		if p.Describes, err = gobDecodeItem(raw); err != nil {
 			return err
 		}
